@@ -220,7 +220,7 @@ def run_case(case):
     if case["history"]:
         # (in half of the histories also a collapse of the tree by six orders of magnitude and back: subtrees that were far above the
         # threshold when rescaling was switched on now underflow)
-        for step, f in enumerate([1.6, 0.7, 1.0, 2.5, 1.0] + ([1e-6, 1.0, 1e-8, 30.0] if case["seed"] % 2 else [])):
+        for step, f in enumerate([1.6, 0.7, 1.0, 2.5, 1.0] + ([1e-6, 1.0, 1e-8, 30.0, 1e-14, 1.0, 1e-18, 1.0] if case["seed"] % 2 else [])):
             c2 = dict(c)
             c2["branch_lengths"] = (bl0 * f).tolist()
             ref2, minlog2 = ref_eval(c2)
